@@ -82,9 +82,15 @@ func lower(src string) (m *ir.Module) {
 
 func drawSource(t *rapid.T) string {
 	loadCorpus()
-	if len(corpus) > 0 && rapid.IntRange(0, 2).Draw(t, "srcKind") > 0 {
+	if len(corpus) > 0 && rapid.IntRange(0, 1).Draw(t, "srcKind") > 0 {
 		ev.Class("source:corpus")
 		return corpus[rapid.IntRange(0, len(corpus)-1).Draw(t, "corpus")]
+	}
+	if rapid.Bool().Draw(t, "fullProfile") {
+		// full profile: several entry points of mixed stages, textures, samplers (one texture may be
+		// sampled through two samplers), IO structs, overrides
+		ev.Class("source:generated-full")
+		return wgen.GenFull(t, wgen.FullFeatures{Off: ev.ExcludedQuiet}).Src
 	}
 	ev.Class("source:generated")
 	f := wgen.DefaultFeatures()
@@ -293,6 +299,17 @@ func TestPropHistories(t *testing.T) {
 			b := names[rapid.IntRange(0, len(names)-1).Draw(t, "backend")]
 			if ev.Excluded("c12.backend." + b) {
 				continue
+			}
+			if b == "overrides" && ev.Excluded("c14.clone-shares-module") {
+				// open finding C14-1: ProcessOverrides on a clone writes through pointers shared with
+				// the caller's module; only modules without override declarations are exempt
+				hasOv := false
+				for _, src := range h.Sources {
+					hasOv = hasOv || strings.Contains(src, "override ")
+				}
+				if hasOv {
+					continue
+				}
 			}
 			h.Steps = append(h.Steps, Step{Op: "compile", Mod: rapid.IntRange(0, 3).Draw(t, "mod"), Backend: b})
 			ev.Class("backend:" + b)
